@@ -776,4 +776,470 @@ theorem result_isValue {lib : Lib} {e : Expr} {r : Out} (h : Eval lib e r) : ∀
   | subrunErrExt _ _ _ _ => intro v hv; cases hv
   | subrunErrExtErr _ _ _ _ => intro v hv; cases hv
 
+/-! ## Completeness of the evaluator (when it reports no unknown) -/
+
+def NoUnk (rs : Outs) : Prop := Out.unk ∉ rs
+
+theorem bindO_ok_intro {rs : Outs} {k : Expr → Outs} {r : Out} {v : Expr} (hv : .ok v ∈ rs) (hr : r ∈ k v) :
+    r ∈ bindO rs k := mem_bindO.mpr (Or.inl ⟨v, hv, hr⟩)
+
+theorem bindO_err_intro {rs : Outs} {k : Expr → Outs} {x : Err} (hx : .err x ∈ rs) : .err x ∈ bindO rs k :=
+  mem_bindO.mpr (Or.inr (Or.inl ⟨x, rfl, hx⟩))
+
+theorem noUnk_bindO {rs : Outs} {k : Expr → Outs} (h : NoUnk (bindO rs k)) :
+    NoUnk rs ∧ ∀ v, .ok v ∈ rs → NoUnk (k v) := by
+  constructor
+  · intro hu; exact h (mem_bindO.mpr (Or.inr (Or.inr ⟨rfl, hu⟩)))
+  · intro v hv hu; exact h (bindO_ok_intro hv hu)
+
+theorem bindL_ok_intro {rs : Outs} {k : List Expr → Outs} {r : Out} {vs : List Expr} (hv : .ok (L vs) ∈ rs)
+    (hr : r ∈ k vs) : r ∈ bindL rs k := bindO_ok_intro hv (by simpa [onList] using hr)
+
+theorem bindL_err_intro {rs : Outs} {k : List Expr → Outs} {x : Err} (hx : .err x ∈ rs) : .err x ∈ bindL rs k :=
+  bindO_err_intro hx
+
+theorem noUnk_bindL {rs : Outs} {k : List Expr → Outs} (h : NoUnk (bindL rs k)) :
+    NoUnk rs ∧ ∀ vs, .ok (L vs) ∈ rs → NoUnk (k vs) := by
+  have := noUnk_bindO h
+  refine ⟨this.1, fun vs hv => ?_⟩
+  have := this.2 _ hv
+  simpa [onList] using this
+
+theorem thenEval_ok_intro {rec : Expr → Outs} {o r : Out} {e : Expr} (ho : o = .ok e) (hr : r ∈ rec e) :
+    r ∈ thenEval rec o := by subst ho; exact hr
+
+theorem thenEval_err_intro {rec : Expr → Outs} {o : Out} {x : Err} (ho : o = .err x) : .err x ∈ thenEval rec o := by
+  subst ho; simp [thenEval]
+
+theorem noUnk_thenEval {rec : Expr → Outs} {o : Out} {e : Expr} (h : NoUnk (thenEval rec o)) (ho : o = .ok e) :
+    NoUnk (rec e) := by subst ho; exact h
+
+theorem consJoin_ok_intro {rs tails : Outs} {v : Expr} {vs : List Expr} (hv : .ok v ∈ rs) (ht : .ok (L vs) ∈ tails) :
+    .ok (L (v :: vs)) ∈ consJoin rs tails := by
+  unfold consJoin
+  apply List.mem_append_left
+  apply List.mem_append_left
+  rw [List.mem_flatMap]
+  refine ⟨.ok v, hv, ?_⟩
+  simp only
+  rw [List.mem_flatMap]
+  exact ⟨.ok (L vs), ht, by simp⟩
+
+theorem consJoin_err_left {rs tails : Outs} {x : Err} (hx : .err x ∈ rs) : .err x ∈ consJoin rs tails := by
+  unfold consJoin
+  apply List.mem_append_left
+  apply List.mem_append_right
+  rw [List.mem_filter]
+  exact ⟨hx, by simp [Out.isOk]⟩
+
+theorem consJoin_err_right {rs tails : Outs} {x : Err} (hx : .err x ∈ tails) : .err x ∈ consJoin rs tails := by
+  unfold consJoin
+  apply List.mem_append_right
+  rw [List.mem_filter]
+  exact ⟨hx, by simp [Out.isOk]⟩
+
+theorem noUnk_consJoin {rs tails : Outs} (h : NoUnk (consJoin rs tails)) : NoUnk rs ∧ NoUnk tails := by
+  constructor
+  · intro hu
+    apply h
+    unfold consJoin
+    apply List.mem_append_left
+    apply List.mem_append_right
+    rw [List.mem_filter]
+    exact ⟨hu, by simp [Out.isOk]⟩
+  · intro hu
+    apply h
+    unfold consJoin
+    apply List.mem_append_right
+    rw [List.mem_filter]
+    exact ⟨hu, by simp [Out.isOk]⟩
+
+def RecComplete (lib : Lib) (rec : Expr → Outs) : Prop := ∀ e r, NoUnk (rec e) → Eval lib e r → r ∈ rec e
+
+theorem evalList_complete {lib : Lib} {rec : Expr → Outs} (hrec : RecComplete lib rec) :
+    ∀ es r, NoUnk (evalList rec es) → Eval lib (L es) r → r ∈ evalList rec es := by
+  intro es
+  induction es with
+  | nil =>
+    intro r _ h
+    cases h with
+    | nil => simp [evalList, joinList]
+    | leaf h => simp [isLeaf] at h
+    | cont hk _ _ => exact absurd rfl hk
+    | contErr hk _ => exact absurd rfl hk
+  | cons e es ih =>
+    intro r hn h
+    simp only [evalList, List.map_cons, joinList] at hn ⊢
+    have hn' := noUnk_consJoin hn
+    cases h with
+    | cons h1 h2 => exact consJoin_ok_intro (hrec _ _ hn'.1 h1) (ih _ hn'.2 h2)
+    | consErrHd h1 => exact consJoin_err_left (hrec _ _ hn'.1 h1)
+    | consErrTl h2 => exact consJoin_err_right (ih _ hn'.2 h2)
+    | leaf h => simp [isLeaf] at h
+    | cont hk _ _ => exact absurd rfl hk
+    | contErr hk _ => exact absurd rfl hk
+
+
+theorem condGo_complete {lib : Lib} {rec : Expr → Outs} (hrec : RecComplete lib rec) :
+    ∀ (exprs : List Expr) (r : Out), NoUnk (condGo rec exprs) → Eval lib (.cond exprs) r → r ∈ condGo rec exprs
+  | [], r, _, h => by cases h with | leaf h => simp [isLeaf] at h
+  | [_], r, _, h => by cases h with | leaf h => simp [isLeaf] at h
+  | [c, t], r, hn, h => by
+    rw [condGo] at hn ⊢
+    have hn' := noUnk_bindO hn
+    cases h with
+    | leaf h => simp [isLeaf] at h
+    | condErr h1 => exact bindO_err_intro (hrec _ _ hn'.1 h1)
+    | condThen h1 ht h2 =>
+      have hc := hrec _ _ hn'.1 h1
+      have := hn'.2 _ hc
+      simp only [ht, if_true] at this
+      exact bindO_ok_intro hc (by simp only [ht, if_true]; exact hrec _ _ this h2)
+    | condNoElse h1 ht =>
+      have hc := hrec _ _ hn'.1 h1
+      exact bindO_ok_intro hc (by simp [ht])
+  | [c, t, e], r, hn, h => by
+    rw [condGo] at hn ⊢
+    have hn' := noUnk_bindO hn
+    cases h with
+    | leaf h => simp [isLeaf] at h
+    | condErr h1 => exact bindO_err_intro (hrec _ _ hn'.1 h1)
+    | condThen h1 ht h2 =>
+      have hc := hrec _ _ hn'.1 h1
+      have := hn'.2 _ hc
+      simp only [ht, if_true] at this
+      exact bindO_ok_intro hc (by simp only [ht, if_true]; exact hrec _ _ this h2)
+    | condElse h1 ht h2 =>
+      have hc := hrec _ _ hn'.1 h1
+      have := hn'.2 _ hc
+      simp [ht] at this
+      exact bindO_ok_intro hc (by simp [ht]; exact hrec _ _ this h2)
+  | c :: t :: c2 :: t2 :: rest, r, hn, h => by
+    rw [condGo] at hn ⊢
+    have hn' := noUnk_bindO hn
+    cases h with
+    | leaf h => simp [isLeaf] at h
+    | condErr h1 => exact bindO_err_intro (hrec _ _ hn'.1 h1)
+    | condThen h1 ht h2 =>
+      have hc := hrec _ _ hn'.1 h1
+      have := hn'.2 _ hc
+      simp only [ht, if_true] at this
+      exact bindO_ok_intro hc (by simp only [ht, if_true]; exact hrec _ _ this h2)
+    | condElif h1 ht h2 =>
+      have hc := hrec _ _ hn'.1 h1
+      have := hn'.2 _ hc
+      simp [ht] at this
+      exact bindO_ok_intro hc (by simp [ht]; exact condGo_complete hrec _ _ this h2)
+
+theorem seqGo_complete {lib : Lib} {rec : Expr → Outs} (hrec : RecComplete lib rec) :
+    ∀ (es : List Expr) (r : Out), NoUnk (seqGo rec es) → Eval lib (.seq es) r → r ∈ seqGo rec es := by
+  intro es
+  induction es with
+  | nil =>
+    intro r _ h
+    cases h with
+    | leaf h => simp [isLeaf] at h
+    | seqNil => simp [seqGo]
+  | cons e es ih =>
+    intro r hn h
+    rw [seqGo] at hn ⊢
+    have hn' := noUnk_bindO hn
+    cases h with
+    | leaf h => simp [isLeaf] at h
+    | seqCons h1 h2 =>
+      have hv := hrec _ _ hn'.1 h1
+      have hn2 := noUnk_bindL (hn'.2 _ hv)
+      exact bindO_ok_intro hv (bindL_ok_intro (ih _ hn2.1 h2) (by simp))
+    | seqErrHd h1 => exact bindO_err_intro (hrec _ _ hn'.1 h1)
+    | seqErrTl h1 h2 =>
+      have hv := hrec _ _ hn'.1 h1
+      have hn2 := noUnk_bindL (hn'.2 _ hv)
+      exact bindO_ok_intro hv (bindL_err_intro (ih _ hn2.1 h2))
+
+
+theorem mem_single {o : Out} : o ∈ [o] := by simp
+
+theorem noUnk_flatMap {rs : Outs} {f : Out → Outs} (h : NoUnk (rs.flatMap f)) : ∀ o ∈ rs, NoUnk (f o) := by
+  intro o ho hu
+  exact h (List.mem_flatMap.mpr ⟨o, ho, hu⟩)
+
+theorem step_complete {lib : Lib} {rec : Expr → Outs} (hrec : RecComplete lib rec) : RecComplete lib (step lib rec) := by
+  intro e r hn h
+  cases e with
+  | none => cases h; simp [step]
+  | bool b => cases h; simp [step]
+  | int z => cases h; simp [step]
+  | str s => cases h; simp [step]
+  | errv x => cases h; simp [step]
+  | cls n => cases h; simp [step]
+  | pyfunc n => cases h; simp [step]
+  | taskv n => cases h; simp [step]
+  | partialv t a kn kv => cases h; simp [step]
+  | threadv e => cases h; simp [step]
+  | vexpr v =>
+    cases h with
+    | leaf h => simp [isLeaf] at h
+    | vexpr hv => simp [step, hv]
+  | cont k es =>
+    by_cases hkl : k = .list
+    · subst hkl
+      simp only [step] at hn ⊢
+      exact evalList_complete hrec _ _ hn h
+    · simp only [step] at hn ⊢
+      have hn' := noUnk_bindL hn
+      cases h with
+      | leaf h => simp [isLeaf] at h
+      | nil => exact absurd rfl hkl
+      | cons _ _ => exact absurd rfl hkl
+      | consErrHd _ => exact absurd rfl hkl
+      | consErrTl _ => exact absurd rfl hkl
+      | cont _ h1 hc => exact bindL_ok_intro (evalList_complete hrec _ _ hn'.1 h1) (by simp [hc])
+      | contErr _ h1 => exact bindL_err_intro (evalList_complete hrec _ _ hn'.1 h1)
+  | dict ks vs =>
+    simp only [step] at hn ⊢
+    have hn' := noUnk_bindL hn
+    cases h with
+    | leaf h => simp [isLeaf] at h
+    | dict h1 hc => exact bindL_ok_intro (evalList_complete hrec _ _ hn'.1 h1) (by simp [hc])
+    | dictErr h1 => exact bindL_err_intro (evalList_complete hrec _ _ hn'.1 h1)
+  | call t args kwn kwv =>
+    cases h with
+    | leaf h => simp [isLeaf] at h
+    | call htd h1 hb h2 =>
+      simp only [step, htd] at hn ⊢
+      have hn' := noUnk_bindL hn
+      have hall := evalList_complete hrec _ _ hn'.1 h1
+      exact bindL_ok_intro hall (thenEval_ok_intro hb (hrec _ _ (noUnk_thenEval (hn'.2 _ hall) hb) h2))
+    | callRaise htd h1 hb =>
+      simp only [step, htd] at hn ⊢
+      have hn' := noUnk_bindL hn
+      exact bindL_ok_intro (evalList_complete hrec _ _ hn'.1 h1) (thenEval_err_intro hb)
+    | callArgErr htd h1 =>
+      simp only [step, htd] at hn ⊢
+      have hn' := noUnk_bindL hn
+      exact bindL_err_intro (evalList_complete hrec _ _ hn'.1 h1)
+  | op name args =>
+    simp only [step] at hn ⊢
+    have hn' := noUnk_bindL hn
+    cases h with
+    | leaf h => simp [isLeaf] at h
+    | op h1 ho h2 =>
+      have hvs := evalList_complete hrec _ _ hn'.1 h1
+      exact bindL_ok_intro hvs (thenEval_ok_intro ho (hrec _ _ (noUnk_thenEval (hn'.2 _ hvs) ho) h2))
+    | opRaise h1 ho => exact bindL_ok_intro (evalList_complete hrec _ _ hn'.1 h1) (thenEval_err_intro ho)
+    | opArgErr h1 => exact bindL_err_intro (evalList_complete hrec _ _ hn'.1 h1)
+  | cond exprs => simp only [step] at hn ⊢; exact condGo_complete hrec _ _ hn h
+  | seq exprs => simp only [step] at hn ⊢; exact seqGo_complete hrec _ _ hn h
+  | «catch» e clss recs =>
+    simp only [step] at hn ⊢
+    have hnf := noUnk_flatMap hn
+    have hne : NoUnk (rec e) := by
+      intro hu
+      have := hnf _ hu
+      simp [NoUnk] at this
+    rw [List.mem_flatMap]
+    cases h with
+    | leaf h => simp [isLeaf] at h
+    | catchOk h1 => exact ⟨_, hrec _ _ hne h1, by simp⟩
+    | catchMiss h1 hm => exact ⟨_, hrec _ _ hne h1, by simp [hm]⟩
+    | catchHit h1 hm ha h2 =>
+      have hx := hrec _ _ hne h1
+      have hb := hnf _ hx
+      simp only [hm] at hb
+      exact ⟨_, hx, by simp only [hm]; exact thenEval_ok_intro ha (hrec _ _ (noUnk_thenEval hb ha) h2)⟩
+    | catchHitRaise h1 hm ha =>
+      exact ⟨_, hrec _ _ hne h1, by simp only [hm]; exact thenEval_err_intro ha⟩
+  | catchAll exprs cls recover =>
+    cases h with
+    | leaf h => simp [isLeaf] at h
+    | catchAllOk hterms h1 hun hb =>
+      simp only [step, hterms] at hn ⊢
+      have hn' := noUnk_bindL hn
+      have houts := evalList_complete hrec _ _ hn'.1 h1
+      exact bindL_ok_intro houts (by simp [hun, hb])
+    | catchAllFirst hterms h1 hun hv ht =>
+      simp only [step, hterms] at hn ⊢
+      have hn' := noUnk_bindL hn
+      have houts := evalList_complete hrec _ _ hn'.1 h1
+      exact bindL_ok_intro houts (by simp [hun, hv, ht])
+    | catchAllArgErr hterms h1 hun hv ht h2 =>
+      simp only [step, hterms] at hn ⊢
+      have hn' := noUnk_bindL hn
+      have houts := evalList_complete hrec _ _ hn'.1 h1
+      have hn2 := hn'.2 _ houts
+      simp only [hun, hv, ht, Bool.not_true, Bool.false_eq_true, if_false] at hn2
+      refine bindL_ok_intro houts ?_
+      simp only [hun, hv, ht, Bool.not_true, Bool.false_eq_true, if_false]
+      exact bindL_err_intro (evalList_complete hrec _ _ (noUnk_bindL hn2).1 h2)
+    | catchAllNoMatch hterms h1 hun hv ht h2 hm =>
+      simp only [step, hterms] at hn ⊢
+      have hn' := noUnk_bindL hn
+      have houts := evalList_complete hrec _ _ hn'.1 h1
+      have hn2 := hn'.2 _ houts
+      simp only [hun, hv, ht, Bool.not_true, Bool.false_eq_true, if_false] at hn2
+      refine bindL_ok_intro houts ?_
+      simp only [hun, hv, ht, Bool.not_true, Bool.false_eq_true, if_false]
+      exact bindL_ok_intro (evalList_complete hrec _ _ (noUnk_bindL hn2).1 h2) (by simp [hm])
+    | catchAllRecover hterms h1 hun hv ht h2 hm hb ha h3 =>
+      simp only [step, hterms] at hn ⊢
+      have hn' := noUnk_bindL hn
+      have houts := evalList_complete hrec _ _ hn'.1 h1
+      have hn2 := hn'.2 _ houts
+      simp only [hun, hv, ht, Bool.not_true, Bool.false_eq_true, if_false] at hn2
+      refine bindL_ok_intro houts ?_
+      simp only [hun, hv, ht, Bool.not_true, Bool.false_eq_true, if_false]
+      have hcr := evalList_complete hrec _ _ (noUnk_bindL hn2).1 h2
+      have hn3 := (noUnk_bindL hn2).2 _ hcr
+      simp only [hm, hb] at hn3
+      refine bindL_ok_intro hcr ?_
+      simp only [hm, hb]
+      exact thenEval_ok_intro ha (hrec _ _ (noUnk_thenEval hn3 ha) h3)
+    | catchAllRecoverRaise hterms h1 hun hv ht h2 hm hb ha =>
+      simp only [step, hterms] at hn ⊢
+      have hn' := noUnk_bindL hn
+      have houts := evalList_complete hrec _ _ hn'.1 h1
+      have hn2 := hn'.2 _ houts
+      simp only [hun, hv, ht, Bool.not_true, Bool.false_eq_true, if_false] at hn2
+      refine bindL_ok_intro houts ?_
+      simp only [hun, hv, ht, Bool.not_true, Bool.false_eq_true, if_false]
+      have hcr := evalList_complete hrec _ _ (noUnk_bindL hn2).1 h2
+      refine bindL_ok_intro hcr ?_
+      simp only [hm, hb]
+      exact thenEval_err_intro ha
+  | map_ f values =>
+    simp only [step] at hn ⊢
+    have hn' := noUnk_bindO hn
+    cases h with
+    | leaf h => simp [isLeaf] at h
+    | mapTaskErr h1 => exact bindO_err_intro (hrec _ _ hn'.1 h1)
+    | mapRaw h1 hraw hc h2 =>
+      have hav := hrec _ _ hn'.1 h1
+      have hn2 := hn'.2 _ hav
+      simp only [hraw] at hn2
+      exact bindO_ok_intro hav (by simp only [hraw]; exact thenEval_ok_intro hc (hrec _ _ (noUnk_thenEval hn2 hc) h2))
+    | mapRawRaise h1 hraw hc =>
+      exact bindO_ok_intro (hrec _ _ hn'.1 h1) (by simp only [hraw]; exact thenEval_err_intro hc)
+    | mapValuesErr h1 hraw h2 =>
+      have hav := hrec _ _ hn'.1 h1
+      have hn2 := hn'.2 _ hav
+      simp only [hraw] at hn2
+      exact bindO_ok_intro hav (by simp only [hraw]; exact bindO_err_intro (hrec _ _ (noUnk_bindO hn2).1 h2))
+    | mapNotIter h1 hraw h2 hi =>
+      have hav := hrec _ _ hn'.1 h1
+      have hn2 := hn'.2 _ hav
+      simp only [hraw] at hn2
+      exact bindO_ok_intro hav (by
+        simp only [hraw]
+        exact bindO_ok_intro (hrec _ _ (noUnk_bindO hn2).1 h2) (by simp [hi]))
+    | mapEval h1 hraw h2 hi hc h3 =>
+      have hav := hrec _ _ hn'.1 h1
+      have hn2 := hn'.2 _ hav
+      simp only [hraw] at hn2
+      have hvv := hrec _ _ (noUnk_bindO hn2).1 h2
+      have hn3 := (noUnk_bindO hn2).2 _ hvv
+      simp only [hi] at hn3
+      exact bindO_ok_intro hav (by
+        simp only [hraw]
+        exact bindO_ok_intro hvv (by
+          simp only [hi]
+          exact thenEval_ok_intro hc (hrec _ _ (noUnk_thenEval hn3 hc) h3)))
+    | mapEvalRaise h1 hraw h2 hi hc =>
+      have hav := hrec _ _ hn'.1 h1
+      have hn2 := hn'.2 _ hav
+      simp only [hraw] at hn2
+      exact bindO_ok_intro hav (by
+        simp only [hraw]
+        exact bindO_ok_intro (hrec _ _ (noUnk_bindO hn2).1 h2) (by
+          simp only [hi]
+          exact thenEval_err_intro hc))
+  | applyTags v tags jtags etags =>
+    simp only [step] at hn ⊢
+    have hn' := noUnk_bindL hn
+    cases h with
+    | leaf h => simp [isLeaf] at h
+    | applyTags h1 ht hj he =>
+      exact bindL_ok_intro (evalList_complete hrec _ _ hn'.1 h1) (by simp [ht, hj, he])
+    | applyTagsErr h1 => exact bindL_err_intro (evalList_complete hrec _ _ hn'.1 h1)
+  | fork e => cases h with
+    | leaf h => simp [isLeaf] at h
+    | fork => simp [step]
+  | join th =>
+    cases h with
+    | leaf h => simp [isLeaf] at h
+    | join h1 =>
+      simp only [step] at hn ⊢
+      exact hrec _ _ hn h1
+  | subrun e ne =>
+    simp only [step] at hn ⊢
+    have hnf := noUnk_flatMap hn
+    have hne : NoUnk (rec e) := by
+      intro hu
+      have := hnf _ hu
+      simp [NoUnk] at this
+    rw [List.mem_flatMap]
+    cases h with
+    | leaf h => simp [isLeaf] at h
+    | subrunOk h1 h2 =>
+      have hv := hrec _ _ hne h1
+      have hb := hnf _ hv
+      simp only at hb
+      exact ⟨_, hv, bindO_ok_intro (hrec _ _ (noUnk_bindO hb).1 h2) (by simp)⟩
+    | subrunOkErr h1 h2 =>
+      have hv := hrec _ _ hne h1
+      have hb := hnf _ hv
+      simp only at hb
+      exact ⟨_, hv, bindO_err_intro (hrec _ _ (noUnk_bindO hb).1 h2)⟩
+    | subrunErrNew h1 => exact ⟨_, hrec _ _ hne h1, by simp⟩
+    | subrunErrExt h1 h2 =>
+      have hx := hrec _ _ hne h1
+      have hb := hnf _ hx
+      simp only [Bool.false_eq_true, if_false] at hb
+      exact ⟨_, hx, by
+        simp only [Bool.false_eq_true, if_false]
+        exact bindO_ok_intro (hrec _ _ (noUnk_bindO hb).1 h2) (by simp)⟩
+    | subrunErrExtErr h1 h2 =>
+      have hx := hrec _ _ hne h1
+      have hb := hnf _ hx
+      simp only [Bool.false_eq_true, if_false] at hb
+      exact ⟨_, hx, by
+        simp only [Bool.false_eq_true, if_false]
+        exact bindO_err_intro (hrec _ _ (noUnk_bindO hb).1 h2)⟩
+  | settle e =>
+    simp only [step] at hn ⊢
+    have hne : NoUnk (rec e) := by
+      intro hu
+      exact hn (List.mem_map.mpr ⟨.unk, hu, rfl⟩)
+    rw [List.mem_map]
+    cases h with
+    | leaf h => simp [isLeaf] at h
+    | settleOk h1 => exact ⟨_, hrec _ _ hne h1, rfl⟩
+    | settleErr h1 => exact ⟨_, hrec _ _ hne h1, rfl⟩
+
+theorem evalAll_complete {lib : Lib} : ∀ (n : Nat), RecComplete lib (evalAll lib n)
+  | 0 => by
+    intro e r hn _
+    exact absurd (by simp [evalAll]) hn
+  | n + 1 => by
+    intro e r hn h
+    rw [evalAll] at hn ⊢
+    exact step_complete (evalAll_complete n) e r hn h
+
+/-- wherever `evalFuel` answers, its answer is the only outcome the rules allow -/
+theorem evalFuel_unique {lib : Lib} {n : Nat} {e : Expr} {r : Out} (h : evalFuel lib n e = some r) :
+    ∀ r', Eval lib e r' → r' = r := by
+  intro r' h'
+  unfold evalFuel at h
+  split at h
+  · rename_i v heq
+    cases h
+    have := evalAll_complete n e r' (by rw [heq]; simp [NoUnk]) h'
+    rw [heq] at this
+    simpa using this
+  · rename_i x heq
+    cases h
+    have := evalAll_complete n e r' (by rw [heq]; simp [NoUnk]) h'
+    rw [heq] at this
+    simpa using this
+  · cases h
+
 end RedunModel.EvalCore
